@@ -1,4 +1,5 @@
 import IGVerif.Props.Ties
+import IGVerif.Proofs.VisValues
 /-! C17 — visual display options change presentation only. -/
 namespace IGVerif.C17
 open IGVerif IGVerif.Vis
@@ -15,5 +16,14 @@ theorem ac_first_keeps_other_order :
 theorem annotations_iff_selected (o : VOpts) (a : Option Str) :
     (optAnn o a).isSome = (o.ann && a.isSome) := by
   unfold optAnn; cases o.ann <;> cases a <;> simp
+
+/-- **The (component, value text, level) entries of a component are the same under every
+    combination of display options** — flat or tree properties, binary or collapsed operators,
+    activation conditions first, annotations, Degree of Variability: only the packaging of the
+    value objects changes -/
+theorem entries_do_not_depend_on_options (o₁ o₂ : VOpts) (fs₁ fs₂ : PStmt) (level : Nat) (fuel₁ fuel₂ : Nat) (n : PNode) (c : Ctx)
+    (p₁ p₂ : Option Str) (q₁ q₂ : Str) (h₁ : height n ≤ fuel₁) (h₂ : height n ≤ fuel₂) :
+    valuesL (nodeJ o₁ fuel₁ fs₁ level c p₁ q₁ n) = valuesL (nodeJ o₂ fuel₂ fs₂ level c p₂ q₂ n) :=
+  values_option_independent o₁ o₂ fs₁ fs₂ level fuel₁ fuel₂ n c p₁ p₂ q₁ q₂ h₁ h₂
 
 end IGVerif.C17
